@@ -635,7 +635,7 @@ func c15Kern(r *run.Run) {
 func c15Ligatures(r *run.Run) {
 	ligs := []rune{0xFB00, 0xFB01, 0xFB02, 0xFB03, 0xFB04}
 	r.Explore(explore.Config{Name: "C15.synthetic-ligatures", Bound: 1},
-		"fonts without GSUB read from a file: proportional and monospaced, all 32 subsets of U+FB00..FB04 mapped, with/without f, i, l mapped: proportional fonts ligate exactly the ligatures whose characters they map (longest first), monospaced fonts do not",
+		"fonts without GSUB read from a file: proportional and monospaced, all 32 subsets of U+FB00..FB04 mapped, with/without f, i, l mapped: proportional fonts ligate exactly the ligatures whose characters they map (longest first), monospaced fonts do not, and nothing is ligated when the caller switches the liga feature off or passes an empty feature map",
 		func(c *explore.Ctx) {
 			mono := c.Bool("monospaced")
 			letters := []rune{'f', 'i', 'l'}
@@ -681,11 +681,17 @@ func c15Ligatures(r *run.Run) {
 				c.Fail("C15.ligatures", "read", "%v", err)
 				return
 			}
-			c.Outcome(mono, fmt.Sprint(cm))
-			lay, err := g.NewLayouter(language.English, nil, nil)
+			// feature switches: the defaults, the ligatures switched off, no optional feature at all
+			swk := c.Choose(3, "feature switches")
+			sw := []map[string]bool{nil, {"liga": false}, {}}[swk]
+			c.Outcome(mono, fmt.Sprint(cm), swk)
+			lay, err := g.NewLayouter(language.English, sw, nil)
 			if err != nil {
 				c.Fail("C15.ligatures", "NewLayouter", "%v", err)
 				return
+			}
+			if swk > 0 {
+				mono = true // switched off by the caller: one glyph per character, as for a monospaced font
 			}
 			if len(mapped) > 0 {
 				c.Nontrivial()
@@ -725,7 +731,7 @@ func c15Ligatures(r *run.Run) {
 					got = append(got, gi.GID)
 				}
 				if fmt.Sprint(got) != fmt.Sprint(want) {
-					c.Fail("C15.ligatures", fmt.Sprintf("mono=%v", mono), "Layout(%q) gives glyphs %v, expected %v (cmap %v)", s, got, want, cm)
+					c.Fail("C15.ligatures", fmt.Sprintf("mono=%v switches=%d", mono, swk), "Layout(%q) with feature switches %v gives glyphs %v, expected %v (cmap %v)", s, sw, got, want, cm)
 					return
 				}
 			}
